@@ -159,9 +159,8 @@ func c05Decoder(c *Ctx, prog *load.Program) {
 		c.R.Unknown("C05-2", "decoder", pos, fmt.Sprintf("analysis incomplete: %v %v", err, firstN(ex.Fails, 2)))
 		return
 	}
-	tp, _ := out.Ret.St.Resolve(out.Ret.Results).(*absint.Ptr)
-	if tp == nil {
-		c.R.Unknown("C05-2", "decoder", pos, "initialiser does not return a table pointer")
+	if !isTableResult(out.Ret.St, out.Ret.Results) {
+		c.R.Unknown("C05-2", "decoder", pos, "initialiser returns neither a table pointer nor a table value")
 		return
 	}
 	BIN := absint.SymBytes("BIN", int(total), 0)
@@ -170,8 +169,7 @@ func c05Decoder(c *Ctx, prog *load.Program) {
 	for i := 0; i < 32 && bad == ""; i++ {
 		for j := 0; j < 255 && bad == ""; j++ {
 			for co := 0; co < 2; co++ {
-				p := ex.FieldPtr(ex.ElemPtr(ex.ElemPtr(tp, int64(i)), int64(j)), co)
-				got, _ := out.Ret.St.Resolve(ex.LoadLeaf(out.Ret.St, p)).(*sym.Term)
+				got := tableCoord(ex, out.Ret.St, out.Ret.Results, i, j, co)
 				off := int64(((i*255+j)*2 + co) * 32)
 				want := models.OfBytes(sym.Fp, absint.SubBytes(BIN, sym.ConstI(off), sym.ConstI(off+32)))
 				n++
@@ -186,6 +184,37 @@ func c05Decoder(c *Ctx, prog *load.Program) {
 	c.R.Decide(decodeCalls == 16320, "C05-2", "decoder/canonical-only", pos, "all 16320 coordinates go through MustSetCanonicalBytes (non-canonical values panic at init)", fmt.Sprintf("%d coordinates decoded with the canonical-only decoder, expected 16320", decodeCalls))
 	// the embedded slice must be exactly as long as the decoder reads
 	c.R.Floor("C05-2", 2)
+}
+
+// tableCoord reads coordinate co of entry (i, j) of a table that an initialiser returns either as a pointer to the
+// array or as the array by value.
+func tableCoord(ex *absint.Exec, st *absint.State, res absint.Val, i, j, co int) *sym.Term {
+	switch t := st.Resolve(res).(type) {
+	case *absint.Ptr:
+		p := ex.FieldPtr(ex.ElemPtr(ex.ElemPtr(t, int64(i)), int64(j)), co)
+		got, _ := st.Resolve(ex.LoadLeaf(st, p)).(*sym.Term)
+		return got
+	case *absint.Agg:
+		var v absint.Val = t
+		for _, k := range []int{i, j, co} {
+			a, ok := st.Resolve(v).(*absint.Agg)
+			if !ok || k >= len(a.Elems) {
+				return nil
+			}
+			v = a.Elems[k]
+		}
+		got, _ := st.Resolve(v).(*sym.Term)
+		return got
+	}
+	return nil
+}
+
+func isTableResult(st *absint.State, res absint.Val) bool {
+	switch st.Resolve(res).(type) {
+	case *absint.Ptr, *absint.Agg:
+		return true
+	}
+	return false
 }
 
 // c05Odd: generatorOddAffineTable[i][j] = huge[i][16(j+1)-1].
@@ -206,19 +235,19 @@ func c05Odd(c *Ctx, prog *load.Program) {
 		c.R.Unknown("C05-3", "odd-table", pos, fmt.Sprintf("analysis incomplete: %v %v", err, firstN(ex.Fails, 2)))
 		return
 	}
-	tp, _ := out.Ret.St.Resolve(out.Ret.Results).(*absint.Ptr)
-	if tp == nil {
-		c.R.Unknown("C05-3", "odd-table", pos, "initialiser does not return a table pointer")
+	if !isTableResult(out.Ret.St, out.Ret.Results) {
+		c.R.Unknown("C05-3", "odd-table", pos, "initialiser returns neither a table pointer nor a table value")
 		return
 	}
 	bad := ""
 	for i := 0; i < 32 && bad == ""; i++ {
 		for j := 0; j < 15 && bad == ""; j++ {
 			for co, cn := range []string{"x", "y"} {
-				p := ex.FieldPtr(ex.ElemPtr(ex.ElemPtr(tp, int64(i)), int64(j)), co)
-				got, _ := out.Ret.St.Resolve(ex.LoadLeaf(out.Ret.St, p)).(*sym.Term)
+				got := tableCoord(ex, out.Ret.St, out.Ret.Results, i, j, co)
 				want := fmt.Sprintf("*generatorHugeAffineTable[%d][%d].%s", i, 16*(j+1)-1, cn)
-				if got == nil || got.Op != "s" || got.S != want {
+				// (the symbol of a global's content is named after the path from the variable: with or without the
+				// dereference of a pointer-typed variable)
+				if got == nil || got.Op != "s" || (got.S != want && got.S != strings.TrimPrefix(want, "*")) {
 					bad = fmt.Sprintf("odd[%d][%d].%s is %s, expected %s", i, j, cn, absint.ValString(got), want)
 					break
 				}
